@@ -67,6 +67,9 @@ MUTANTS = [
     ("run_skips_destroy_on_start_failure", "run.c", "  r = reproc_start(process, argv, options);\n  if (r < 0) {\n    goto finish;\n  }", "  r = reproc_start(process, argv, options);\n  if (r < 0) {\n    return r;\n  }", "reproc_run_ex", "C05+C16/run.destroy_is_last_and_exactly_once"),
     ("run_ignores_drain_error", "run.c", "  r = reproc_drain(process, out, err);\n  if (r < 0) {\n    goto finish;\n  }", "  r = reproc_drain(process, out, err);", "reproc_run_ex", "C16/run.stop_after_successful_drain"),
     ("path_relative_accepts_plain_name", "process.posix.c", "strchr(path + 1, '/') != NULL", "1", "path_is_relative", "C03/path_is_relative.non_empty_not_absolute_with_directory_component"),
+    ("prepend_realloc_one_short", "process.posix.c", "realloc(cwd, cwd_size + path_size + 1)", "realloc(cwd, cwd_size + path_size)", "path_prepend_cwd", "path_prepend_cwd.pointer_dereference"),
+    ("prepend_leaks_on_getcwd_error", "process.posix.c", "    if (errno != ERANGE) {\n      free(cwd);\n      return NULL;\n    }", "    if (errno != ERANGE) {\n      return NULL;\n    }", "path_prepend_cwd", "__CPROVER__start.memory-leak.1"),
+    ("prepend_no_separator", "process.posix.c", "  if (cwd[cwd_size - 1] != '/') {", "  if (0) {", "path_prepend_cwd", "C03/path_prepend_cwd.cwd_then_one_slash_then_path"),
     ("read_wrong_stream", "reproc.c", "pipe_type *pipe = stream == REPROC_STREAM_OUT ? &process->pipe.out\n                                                : &process->pipe.err;", "pipe_type *pipe = stream == REPROC_STREAM_OUT ? &process->pipe.err\n                                                : &process->pipe.out;", "reproc_read", "C02/reproc_read.one_read_on_that_stream"),
     ("read_epipe_not_sticky", "reproc.c", "  if (r == REPROC_EPIPE) {\n    *pipe = pipe_destroy(*pipe);\n  }", "  if (r == REPROC_EPIPE) {\n    pipe_destroy(*pipe);\n  }", "reproc_read", "C02/reproc_read.epipe_is_sticky"),
     ("close_not_idempotent", "reproc.c", "      process->pipe.in = pipe_destroy(process->pipe.in);\n      return 0;", "      pipe_destroy(process->pipe.in);\n      return 0;", "reproc_close", "C02+C14/reproc_close.closes_exactly_that_stream"),
@@ -91,7 +94,7 @@ def one(m, keep=False):
         refuted = [l.split()[1] for l in r.stdout.splitlines() if l.strip().startswith("FAILURE") and "canary/" not in l and "reach/" not in l]
         if "NO-VERDICT" in r.stdout and label not in refuted:
             return name, "NO-VERDICT", r.stdout[-300:]
-        if label in refuted:
+        if label in refuted or any(x.startswith(label) for x in refuted):
             return name, "caught", ", ".join(refuted)
         return name, "MISSED", "refuted: %s | %s" % (refuted, r.stdout[-400:])
     finally:
